@@ -156,7 +156,7 @@ fn cut(buf: &[u8]) {
 #[cfg_attr(feature = "alloc", kani::stub(crate::decode::Error::message, crate::kani_refspec_stubs::message))]
 '''
     def harness(name, cases, tier, bound, unwind):
-        out.append('// @harness name=%s props=C06,C02,C20 kind=bounded%s bound="%s"' % (name, " tier=thorough" if tier == "thorough" else "", bound))
+        out.append('// @harness name=%s props=C06 kind=bounded%s bound="%s"' % (name, " tier=thorough" if tier == "thorough" else "", bound))
         out.append(ATTR % unwind + "fn %s() {\n%s\n    kani::cover!(true);\n}\n" % (name, "\n".join(cases)))
 
     # ---- A: all shapes with <= 3 nodes, preferred widths, leaves = all three kinds; cuts: some
